@@ -103,10 +103,21 @@ func execute(h mx.History, faults []sched.Fault, rules []sched.Rule) runResult {
 		done <- runResult{out: out, err: e, sc: sc}
 	}()
 	var res runResult
+	got := false
 	select {
 	case res = <-done:
+		got = true
 	case <-time.After(10 * time.Second):
-		res = runResult{timeout: true, sc: sc}
+		if vlib.ConfirmDeadlock(150*time.Second, func() bool {
+			select {
+			case res = <-done:
+				got = true
+			default:
+			}
+			return got
+		}) {
+			res = runResult{timeout: true, sc: sc}
+		}
 	}
 	// let every background writer that was handed a run finish (after an error the caller has not
 	// gone through Finalise, which is what normally waits for them). On a busy machine that can
